@@ -3,6 +3,7 @@ use crate::common::*;
 use crate::models::*;
 use nalgebra::{DMatrix, DVector};
 use varpro::solvers::levmar::LevMarProblemBuilder;
+use levenberg_marquardt::LeastSquaresProblem;
 use varpro::util::Weights;
 
 #[derive(Clone, Debug)]
@@ -89,12 +90,19 @@ macro_rules! run_ctor {
                     }
                     None => "none",
                 };
+                // ... and: are residuals exposed, and are the reported parameters bit for bit the model's
+                // initial parameters (1.0) ?
+                let pr = if LeastSquaresProblem::residuals(&p).is_some() { 1 } else { 0 };
+                let pv = LeastSquaresProblem::params(&p);
+                let pm = if pv.len() == 1 && pv[0] == <$T as Sc>::of(1.0) { 1 } else { 0 };
                 format!(
-                    "impl ok eps {} yw {} w {}\npost cz={}",
+                    "impl ok eps {} yw {} w {}\npost cz={} pr={} pm={}",
                     hex(eps),
                     mat_str(&yw),
                     weights_str(p.weights()),
-                    cz
+                    cz,
+                    pr,
+                    pm
                 )
             }
             Err(e) => format!("impl err {}", canon_builder_err(&format!("{:?}", e))),
@@ -108,12 +116,13 @@ macro_rules! run_ctor {
     };
 }
 
-fn run_case<T: Sc>(ctor: &str, nmodel: usize, calls: &[BCall]) -> String {
+fn run_case<T: Sc>(ctor: &str, nmodel: usize, calls: &[BCall], mode: u8) -> String {
     let model = ConstModel::<T> {
         n: nmodel,
         m: 1,
         params: DVector::from_element(1, T::of(1.0)),
         phi: DMatrix::from_element(nmodel, 1, T::of(1.0)),
+        mode,
     };
     let r = guarded(|| match ctor {
         "new" => run_ctor!(new, false, T, model.clone(), calls),
@@ -155,13 +164,13 @@ fn small_val(rng: &mut Rng, width: u32) -> f64 {
     v
 }
 
-pub fn emit_case<T: Sc>(out: &mut Out, ctor: &str, nmodel: usize, calls: &[BCall]) {
+pub fn emit_case<T: Sc>(out: &mut Out, ctor: &str, nmodel: usize, calls: &[BCall], mode: u8) {
     out.begin(
         "pbuilder",
-        &format!("ctor={} nmodel={} width={}", ctor, nmodel, T::WIDTH),
+        &format!("ctor={} nmodel={} width={} mmode={}", ctor, nmodel, T::WIDTH, mode),
     );
     call_lines::<T>(calls, out);
-    let r = run_case::<T>(ctor, nmodel, calls);
+    let r = run_case::<T>(ctor, nmodel, calls, mode);
     out.line(&r);
     out.end();
 }
@@ -177,6 +186,7 @@ pub fn stream(out: &mut Out, seed: u64, thorough: bool) {
     // weights: the coefficients exposed right after build() must already be truncated)
     let eps_opts: [Option<f64>; 6] = [None, Some(0.5), Some(-0.25), Some(0.0), Some(2.0), Some(-4.0)];
     let reps = if thorough { 6 } else { 1 };
+    let mut ncase = 0usize;
     for ctor in ctors.iter() {
         let mrhs = ctor.starts_with("mrhs");
         for nmodel in 0..=3usize {
@@ -234,9 +244,21 @@ pub fn stream(out: &mut Out, seed: u64, thorough: bool) {
                             calls.extend(last.into_iter());
                             let f32case = (rep + nmodel + (wl + 1) as usize) % 3 == 0;
                             if f32case {
-                                emit_case::<f32>(out, ctor, nmodel, &calls);
+                                emit_case::<f32>(out, ctor, nmodel, &calls, 0);
                             } else {
-                                emit_case::<f64>(out, ctor, nmodel, &calls);
+                                emit_case::<f64>(out, ctor, nmodel, &calls, 0);
+                            }
+                            // the same table with a model that does not evaluate at its initial
+                            // parameters (mode cycled by a case counter): acceptance must not depend on
+                            // it, and the built problem sits at the model's parameters with nothing cached
+                            ncase += 1;
+                            if ncase % 3 == 0 {
+                                let mode = 1 + ((ncase / 3) % 3) as u8;
+                                if f32case {
+                                    emit_case::<f32>(out, ctor, nmodel, &calls, mode);
+                                } else {
+                                    emit_case::<f64>(out, ctor, nmodel, &calls, mode);
+                                }
                             }
                         }
                     }
